@@ -164,9 +164,13 @@ def cache_stores(ctx, cls, tables=None):
                     continue
                 if tables is not None and w.attr not in tables:
                     continue
-                t = w.node.targets[0]
-                if isinstance(t, ast.Subscript):
-                    out.append((m, st, w, t.slice))
+                for t in w.node.targets:
+                    base = t
+                    while isinstance(base, ast.Subscript) and isinstance(base.value, ast.Subscript):
+                        base = base.value
+                    if isinstance(t, ast.Subscript) and ((w.attr == DICT and isinstance(t.value, ast.Name)) or (isinstance(t.value, ast.Attribute) and t.value.attr == w.attr)):
+                        out.append((m, st, w, t.slice))
+                        break
     return out
 
 
@@ -177,7 +181,7 @@ def commit_last(ctx):
     bare = []
     for m, st, w, key in stores:
         rv = recv_name(m)
-        params = [p for p in m.params if p != rv]
+        params = [p for p in m.params if p != rv][:1]
         if w.attr == DICT and "param" in key_shapes(m.node, key, params):
             bare.append((m, st, w))
     ctx.require(bare, "no store of the bare looked-up key found")
